@@ -551,3 +551,8 @@ Fixpoint open_from (b : bool) (t : tid) (log : list event) : bool :=
   | ERes u _ _ :: log' => open_from (if t =? u then false else b) t log'
   end.
 Definition open_inv (t : tid) (log : list event) : bool := open_from false t log.
+
+(* channel.make(n): channellib.go channelMake refuses a negative buffer size and one above
+   MaxArrayIndex (config.go, 67108864) with an argument error; anything else is a channel *)
+Definition max_chan_buffer : Z := 67108864.
+Definition make_ok (n : Z) : bool := (0 <=? n) && (n <=? max_chan_buffer).
